@@ -204,6 +204,7 @@ structure AllOnce (n : Nat) : Prop where
   resolveTS : ∀ tsName ts i, SpecO cfg (resolveTS n cfg tsName ts i)
   dLoadEntry : ∀ name, SpecO cfg (dLoadEntry n cfg name)
   dFind : ∀ name, SpecO cfg (dFind n cfg name)
+  dMembers : ∀ name, SpecO cfg (dMembers n cfg name)
   dLoop : ∀ mods name, SpecO cfg (dLoop n cfg mods name)
 
 variable {cfg}
@@ -221,11 +222,15 @@ theorem ostep_fbLoadEntry {n : Nat} (ih : AllOnce cfg n) (l : Lid) (name : Name)
   intro s hs
   simp only [fbLoadEntry, wp_bind]
   have h1 : wp (match l with
-      | .m _ => fbLoadEntry n cfg .g name
+      | .m _ => if cfg.flat then pure (sysLoad name) else fbLoadEntry n cfg .g name
       | _ => pure (sysLoad name))
       (fun _ s' => InvOnce cfg s') (InvOnce cfg) s := by
     cases l with
-    | m mod => exact ih.fbLoadEntry .g name (by intro h; cases h) s hs
+    | m mod =>
+      simp only []
+      by_cases hf : cfg.flat = true
+      · rw [if_pos hf]; exact hs
+      · rw [if_neg hf]; exact ih.fbLoadEntry .g name (by intro h; cases h) s hs
     | g => exact hs
     | d => exact hs
   refine wp_mono h1 ?_ (fun _ h => h)
@@ -505,13 +510,28 @@ theorem ostep_dFind {n : Nat} (ih : AllOnce cfg n) (name : Name) :
     | some ps =>
       simp only []
       cases hh : ps.head? with
-      | none => exact ih.dLoop cfg.mods name s hs
+      | none => exact ih.dMembers name s hs
       | some h =>
         simp only []
         by_cases hm : cfg.mods.contains h = true
         · rw [if_pos hm]; exact ih.fbLoadEntry (.m h) name (by intro h'; cases h') s hs
-        · rw [if_neg hm]; exact ih.dLoop cfg.mods name s hs
-  · rw [if_neg hc]; exact ih.dLoop cfg.mods name s hs
+        · rw [if_neg hm]; exact ih.dMembers name s hs
+  · rw [if_neg hc]; exact ih.dMembers name s hs
+
+theorem ostep_dMembers {n : Nat} (ih : AllOnce cfg n) (name : Name) :
+    SpecO cfg (dMembers (n+1) cfg name) := by
+  intro s hs
+  simp only [dMembers]
+  by_cases hf : cfg.flat = true
+  · rw [if_pos hf]
+    simp only [wp_bind]
+    refine wp_mono (ih.fbLoadEntry .g name (by intro h; cases h) s hs) ?_ (fun _ h => h)
+    intro e s1 hs1
+    match e with
+    | some (some d) => exact hs1
+    | some none => exact ih.dLoop cfg.mods name s1 hs1
+    | none => exact ih.dLoop cfg.mods name s1 hs1
+  · rw [if_neg hf]; exact ih.dLoop cfg.mods name s hs
 
 theorem ostep_dLoadEntry {n : Nat} (ih : AllOnce cfg n) (name : Name) :
     SpecO cfg (dLoadEntry (n+1) cfg name) := by
@@ -547,7 +567,7 @@ theorem allOnce (hgi : cfg.guardInit = true) : ∀ n, AllOnce cfg n
   | 0 => by
     constructor <;> intros <;> (try intro s hs) <;>
       simp only [loadEntry, fbLoadEntry, find, findTail, parentSearch, instantiate, instantiator, addTypes, resolveTS,
-        dLoadEntry, dFind, dLoop, wp_raise] <;> assumption
+        dLoadEntry, dFind, dMembers, dLoop, wp_raise] <;> assumption
   | n+1 =>
     have ih := allOnce hgi n
     { loadEntry := ostep_loadEntry ih
@@ -561,6 +581,7 @@ theorem allOnce (hgi : cfg.guardInit = true) : ∀ n, AllOnce cfg n
       resolveTS := ostep_resolveTS ih
       dLoadEntry := ostep_dLoadEntry ih
       dFind := ostep_dFind ih
+      dMembers := ostep_dMembers ih
       dLoop := ostep_dLoop ih }
 
 theorem once_load (hgi : cfg.guardInit = true) (fuel : Nat) (name : Name) : SpecO cfg (load fuel cfg name) := by
